@@ -153,6 +153,9 @@ type VerifSnapshot struct {
 
 func (v *VerifSession) Snapshot() VerifSnapshot {
 	s := v.s
+	if s.State == nil {
+		return VerifSnapshot{State: "(not started)", NextSender: s.store.NextSenderMsgSeqNum(), NextTarget: s.store.NextTargetMsgSeqNum(), HeartBtInt: s.HeartBtInt}
+	}
 	sn := VerifSnapshot{State: s.State.String(), LoggedOn: s.IsLoggedOn(), Connected: s.IsConnected(), InSessTime: s.IsSessionTime(),
 		NextSender: s.store.NextSenderMsgSeqNum(), NextTarget: s.store.NextTargetMsgSeqNum(), Queued: len(s.toSend),
 		HeartBtInt: s.HeartBtInt, Stopped: s.Stopped()}
